@@ -89,6 +89,22 @@ def scenarios(which):
             cases += 1
             if len(g.__globals__["CALLS"]) != 1:
                 return dict(violation=True, cases=cases, what="reordered dict/set or ignored parameter caused a recomputation", witness="g")
+            big = [(i, str(i)) for i in range(2500)]
+            n0 = len(g.__globals__["CALLS"])
+            cg(dict(big), set(range(1200)))
+            cg(dict(reversed(big)), set(reversed(range(1200))))
+            cases += 1
+            if len(g.__globals__["CALLS"]) != n0 + 1:
+                return dict(violation=True, cases=cases, what="a large dict / set argument (2500 / 1200 entries) built in another order caused a recomputation", witness="g(dict(big), set(...)) then the same built in reverse order")
+            # K22 (recorded finding): callables that are not functions are keyed by their raw argument lists
+            import functools as _ft2
+            pg = define("CALLS = []\ndef pg(a, b=0):\n    CALLS.append(1)\n    return (a, b)\n", "pg", "modpartial")
+            cp = mem.cache(_ft2.partial(pg, 1))
+            cp(2)
+            cp(b=2)
+            nk = len(pg.__globals__["CALLS"])
+            if which in ("all", "C06"):
+                known["K22"] = ("partial(pg, 1): p(2) then p(b=2) executed the function %d times" % nk) if nk != 1 else False
             ref = cg.call_and_shelve({"x": 1}, {1})
             cases += 1
             if ref.get() != g({"x": 1}, {1}):
